@@ -491,7 +491,7 @@ theorem mergeVI_self_merge (vi vo : ValueInfoP) :
     mergeVI (mergeVI vi vo) (mergeVI vi vo) = mergeVI vi vo :=
   mergeVI_self _ (sorted_sortEntries (nodup_dkeys_dictUpdate (nodup_dkeys_dictOfEntries _) _))
 
-theorem passthrough_idem (hin : (inputs.map (·.name)).Nodup) (hout : (outputs.map (·.name)).Nodup) :
+theorem passthrough_idem (hin : (inputs.map (·.name)).Nodup) (hout : ConsOut outputs) :
     (inputs.map (normInputVI outputs)).map (normInputVI (outputs.map (normOutputVI inputs)))
         = inputs.map (normInputVI outputs) ∧
     (outputs.map (normOutputVI inputs)).map (normOutputVI (inputs.map (normInputVI outputs)))
@@ -528,7 +528,7 @@ theorem passthrough_idem (hin : (inputs.map (·.name)).Nodup) (hout : (outputs.m
     | some vi =>
       rw [hf] at hl
       have hn := (findVI_mem hf).2
-      have h2 : findVI outputs vi.name = some vo := by rw [hn]; exact findVI_of_mem hout hvo
+      have h2 : findVI outputs vi.name = some vo := by rw [hn]; exact findVI_of_mem_cons hout hvo
       rw [normOutputVI_some hl, normOutputVI_some hf, normInputVI_some h2]
       exact mergeVI_self_merge vi vo
 
@@ -627,15 +627,29 @@ theorem nodeOutNames_normNodes (nodes : List NodeP) :
   | cons n ns ih =>
     simp only [normNodes, nodeOutNames_cons, ih, normNode_outputs, trim_filter]
 
+theorem mem_dedupStr {l : List String} {a : String} : a ∈ dedupStr l ↔ a ∈ l := by
+  induction l with
+  | nil => simp [dedupStr]
+  | cons x xs ih =>
+    simp only [dedupStr, List.mem_cons, List.mem_filter, ih]
+    by_cases h : a = x <;> simp [h]
+
+theorem nodup_dedupStr : ∀ l : List String, (dedupStr l).Nodup
+  | [] => List.nodup_nil
+  | x :: xs => by
+    simp only [dedupStr, List.nodup_cons]
+    exact ⟨fun h => by simpa using (List.mem_filter.1 h).2,
+      List.Nodup.sublist List.filter_sublist (nodup_dedupStr xs)⟩
+
 theorem quantKeys_nodup {inits : List TensorP} {inputs outputs vis : List ValueInfoP}
     {quant : List AnnotP} {outs : List String} (hw : GraphWF inits inputs outputs vis quant outs) :
     ((inputs.map (·.name)).filter (fun n => !(inits.map (·.name)).contains n) ++ inits.map (·.name)
       ++ outs.filter (fun n => !(outputs.map (·.name)).contains n)
-      ++ (outputs.map (·.name)).filter
+      ++ (dedupStr (outputs.map (·.name))).filter
           (fun n => !(inputs.map (·.name)).contains n && !(inits.map (·.name)).contains n)).Nodup := by
   obtain ⟨hin, houts, hdis⟩ := nodupNames_parts hw
   rw [List.nodup_append]
-  refine ⟨?_, List.Nodup.sublist List.filter_sublist hw.nodupOut, ?_⟩
+  refine ⟨?_, List.Nodup.sublist List.filter_sublist (nodup_dedupStr _), ?_⟩
   · rw [List.nodup_append]
     refine ⟨?_, List.Nodup.sublist List.filter_sublist houts, ?_⟩
     · rw [List.nodup_append]
@@ -653,7 +667,7 @@ theorem quantKeys_nodup {inits : List TensorP} {inputs outputs vis : List ValueI
   · intro a ha b hb e
     subst e
     simp only [List.mem_filter, Bool.and_eq_true, Bool.not_eq_true', List.contains_eq_mem,
-      decide_eq_false_iff_not] at hb
+      decide_eq_false_iff_not, mem_dedupStr] at hb
     rcases List.mem_append.1 ha with ha | ha
     · rcases List.mem_append.1 ha with ha | ha
       · exact hb.2.1 (List.mem_filter.1 ha).1
@@ -682,7 +696,7 @@ theorem normGraph_idem_ext (outer : Scopes) (name doc : String) (nodes : List No
     simp [List.map_map, Function.comp_def, normTensor]
   have e4 : (inits.map normTensor).map normTensor = inits.map normTensor := by
     simp [List.map_map, Function.comp_def, normTensor_idem]
-  obtain ⟨e5, e6⟩ := passthrough_idem (inputs := inputs) (outputs := outputs) hw.nodupIn hw.nodupOut
+  obtain ⟨e5, e6⟩ := passthrough_idem (inputs := inputs) (outputs := outputs) hw.nodupIn hw.consOut
   simp only [normGraph, GraphP.addValueInfo, e1, e2, e3, e4, e5, e6, hnodes, nodeOutNames_normNodes,
     normEntries_idem, canon_vis_idem hw X hX,
     canon_quant_idem quant _ (quantKeys_nodup hw) (fun a ha => (hw.quantOK a ha).2.1)]
